@@ -14,6 +14,27 @@ class ToolError(Exception):
     pass
 
 
+class UnderTestAbort(Exception):
+    """A driver process that executes the code under test was killed by it (abort, SIGSEGV, stack overflow, allocation
+    failure) at a place where the driver cannot attribute the death to one input: the run did not establish the
+    property, and the cause is in the code under test, so this is reported as a violation, not as a tool error."""
+
+    def __init__(self, driver, rc, output):
+        super().__init__(f"{driver} died (rc={rc})")
+        self.driver, self.rc, self.output = driver, rc, output
+
+
+ABORT_MARKS = ("non-unwinding panic", "has overflowed its stack", "memory allocation of", "unsafe precondition", "SIGSEGV", "SIGABRT")
+
+
+def driver_failed(driver, rc, output):
+    """Raise the right exception for a driver that exited non-zero."""
+    tail = output[-3000:]
+    if rc is not None and (rc < 0 or rc in (134, 139, 138)) or any(m in tail for m in ABORT_MARKS):
+        raise UnderTestAbort(driver, rc, tail)
+    raise ToolError(f"{driver} failed (rc={rc}):\n" + tail)
+
+
 def log(*a):
     print(*a, file=sys.stderr, flush=True)
 
